@@ -42,6 +42,8 @@ const (
 	VOld                   // previous contents of an output location
 	VOpaque                // result of an operation outside the domain
 	VWrap                  // wrap mode: carry / borrow / wrap-around count of one instruction (Why = position)
+	VQuot                  // quotient symbol of the division identity (QuotSyms): x = 2^k*Q + r
+	VMono                  // product of two input symbols (Monomials): Parent, Index = the two variables
 )
 
 // VarInfo describes one variable.
@@ -93,6 +95,35 @@ type World struct {
 	// conversions int64<->uint64 reinterpret two's complement layouts.  The
 	// obligations are then congruences modulo 2^N (lattice.go).
 	WrapMode bool
+
+	// Carries: math/bits.Add64/Sub64 are modelled with carry/borrow symbols and
+	// math/bits.Mul64 by the division identity on the 128-bit product, without
+	// making other wrap-arounds legal (WrapMode implies it).
+	Carries bool
+	// Monomials: the product of two affine forms over INPUT symbols is expanded
+	// bilinearly into monomial symbols M(u,v) (no degree 3: any other variable
+	// in an operand leaves the product opaque).
+	Monomials bool
+	// QuotSyms: the division identity x = 2^k*q + r introduces a fresh integer
+	// QUOTIENT symbol (r = x - 2^k*Q) instead of k remainder bits, and the
+	// terms of x whose coefficients are divisible by 2^k are divided exactly
+	// (x = x_div + x_rest: floor(x/2^k) = x_div/2^k + floor(x_rest/2^k)).  All
+	// coefficients stay integers.
+	QuotSyms bool
+	// Globals: loads from package-level variables of the module evaluate the
+	// variable's initialiser (the slice of the package initialiser that
+	// computes it); the variable is assumed not to be written afterwards.
+	Globals bool
+	// OnPhis may replace the values bound to the phis of a block (loop
+	// summarisation by the drivers).
+	OnPhis func(b, pred *ssa.BasicBlock, phis []*ssa.Phi, vals []Value) []Value
+
+	forkScript []bool // forced outcomes of the successive undecided branches (CallAll)
+	forkPos    int
+
+	monoMemo  map[[2]int]int
+	quotMemo  map[string]int
+	globalVal map[*ssa.Global]Value
 
 	// partial 0/1 assignment of variables applied when operands are fetched
 	// (NonAdjacentForm tabulation)
@@ -463,6 +494,12 @@ func (w *World) wrapInto(in ssa.Instruction, k ikind, x *Int, what string) *Int 
 	if x.R.Leq(t) {
 		return x
 	}
+	if !k.signed && x.R.Lo.Cmp(big.NewInt(-1)) >= 0 && x.R.Hi.Sign() <= 0 {
+		// x = -u for a 0/1 quantity u: the word is u*(2^bits - 1) (all ones or zero)
+		w.Stats["0/1 quantity turned into an all-ones mask (exact)"]++
+		ar := Itv{bigZero, pow2m1(k.bits)}
+		return w.mkInt(x.F().Scale(new(big.Rat).SetInt(new(big.Int).Neg(pow2m1(k.bits)))), &ar)
+	}
 	// n in [ceil((lo - t.Hi)/2^bits), floor((hi - t.Lo)/2^bits)]
 	m := pow2(k.bits)
 	nlo := new(big.Int).Sub(x.R.Lo, t.Hi)
@@ -473,7 +510,11 @@ func (w *World) wrapInto(in ssa.Instruction, k ikind, x *Int, what string) *Int 
 	pos, _ := w.where(in)
 	w.Stats["wrap terms (wrap mode)"]++
 	v := w.newVar(VarInfo{Kind: VWrap, Name: fmt.Sprintf("wrap#%d (%s at %s)", len(w.vars), what, pos), Lo: nlo, Hi: nhi, Why: pos})
-	return &Int{f: x.F().Sub(varForm(v).Shl(k.bits)), R: t}
+	res := &Int{f: x.F().Sub(varForm(v).Shl(k.bits)), R: t}
+	if !k.signed && nlo.Cmp(big.NewInt(-1)) == 0 && nhi.Sign() == 0 {
+		res.wr = &wrapRec{n: v, d: x.F(), dR: x.R, bits: k.bits}
+	}
+	return res
 }
 
 // addCarry models math/bits.Add64 (sub = false) and Sub64 (sub = true) in
@@ -496,7 +537,9 @@ func (w *World) addCarry(in ssa.Instruction, x, y, c *Int, sub bool) (res, carry
 	word := Itv{bigZero, pow2m1(64)}
 	if qlo.Cmp(qhi) == 0 {
 		q := qlo
-		res = w.mkInt(full.F().Sub(intForm(new(big.Int).Mul(q, m))), &word)
+		shift := new(big.Int).Mul(q, m)
+		exact := Itv{new(big.Int).Sub(full.R.Lo, shift), new(big.Int).Sub(full.R.Hi, shift)}
+		res = w.mkInt(full.F().Sub(intForm(shift)), &exact)
 		if sub {
 			q = new(big.Int).Neg(q)
 		}
@@ -512,9 +555,17 @@ func (w *World) addCarry(in ssa.Instruction, x, y, c *Int, sub bool) (res, carry
 	v := w.newVar(VarInfo{Kind: VWrap, Name: fmt.Sprintf("%s#%d (at %s)", what, len(w.vars), pos), Lo: qlo, Hi: qhi, Why: pos, Def: full.F()})
 	carry = w.symInt(v)
 	if sub {
-		res = &Int{f: full.F().Add(varForm(v).Shl(64)), R: word}
+		r := word // the difference word is at least the unwrapped difference
+		if full.R.Lo.Sign() > 0 {
+			r = Itv{full.R.Lo, word.Hi}
+		}
+		res = &Int{f: full.F().Add(varForm(v).Shl(64)), R: r}
 	} else {
-		res = &Int{f: full.F().Sub(varForm(v).Shl(64)), R: word}
+		r := word // the sum word is at most the unwrapped sum
+		if full.R.Hi.Cmp(word.Hi) < 0 {
+			r = Itv{bigZero, full.R.Hi}
+		}
+		res = &Int{f: full.F().Sub(varForm(v).Shl(64)), R: r}
 	}
 	return res, carry
 }
@@ -546,6 +597,20 @@ func (w *World) divmod(in ssa.Instruction, x *Int, k uint) (q, r *Int) {
 		w.Stats["division identity on a layout"]++
 		return w.fromLayout(&lq), w.fromLayout(&lr)
 	}
+	// a word d - 2^bits*n that underflowed at most once (n in {-1,0}, t = -n) with
+	// d in [-2^k, 2^k): the low k bits are d + 2^k*t, the bits above are all t
+	if x.wr != nil && k < x.wr.bits && x.wr.dR.Lo.Cmp(new(big.Int).Neg(pow2(k))) >= 0 && x.wr.dR.Hi.Cmp(pow2(k)) < 0 {
+		w.Stats["sign extension of a wrapped difference (exact)"]++
+		t := varForm(x.wr.n).Scale(ratMinusOne)
+		rr := Itv{bigZero, pow2m1(k)}
+		qr := Itv{bigZero, pow2m1(x.wr.bits - k)}
+		return w.mkInt(t.ScaleInt(pow2m1(x.wr.bits-k)), &qr), w.mkInt(x.wr.d.Add(t.Shl(k)), &rr)
+	}
+	if w.QuotSyms {
+		if q, r, ok := w.divmodSplit(in, x, k); ok {
+			return q, r
+		}
+	}
 	// the quotient is determined by the range
 	qlo, qhi := floorDiv2(x.R.Lo, k), floorDiv2(x.R.Hi, k)
 	if qlo.Cmp(qhi) == 0 {
@@ -555,6 +620,28 @@ func (w *World) divmod(in ssa.Instruction, x *Int, k uint) (q, r *Int) {
 		return &Int{f: intForm(qlo), R: single(qlo)}, w.mkInt(rf, &ar)
 	}
 	key := fmt.Sprintf("%d|%s", k, x.F().Key())
+	if w.QuotSyms {
+		// memoised on (form, k): the quotient VARIABLE is shared, its range is
+		// the intersection of what every use knows about the dividend
+		v, ok := w.quotMemo[key]
+		if !ok {
+			pos, _ := w.where(in)
+			w.Stats["division identity (fresh quotient symbol)"]++
+			v = w.newVar(VarInfo{Kind: VQuot, Name: fmt.Sprintf("quot#%d (word >> %d at %s)", len(w.vars), k, pos), Lo: qlo, Hi: qhi, Why: pos})
+			if w.quotMemo == nil {
+				w.quotMemo = map[string]int{}
+			}
+			w.quotMemo[key] = v
+		} else {
+			vi := &w.vars[v]
+			if nr := (Itv{vi.Lo, vi.Hi}).Meet(Itv{qlo, qhi}); true {
+				vi.Lo, vi.Hi = nr.Lo, nr.Hi
+			}
+		}
+		q = w.symInt(v)
+		r = &Int{f: x.F().Sub(varForm(v).Shl(k)), R: Itv{bigZero, pow2m1(k)}}
+		return q, r
+	}
 	ri := w.remMemo[key]
 	if ri == nil {
 		pos, _ := w.where(in)
@@ -574,6 +661,111 @@ func (w *World) divmod(in ssa.Instruction, x *Int, k uint) (q, r *Int) {
 	qf := x.F().Sub(ri.R).Scale(new(big.Rat).SetFrac(bigOne, pow2(k)))
 	ar := Itv{qlo, qhi}
 	return w.mkInt(qf, &ar), r
+}
+
+// divmodSplit divides exactly the terms of x whose coefficients are integer
+// multiples of 2^k: with x = x_div + x_rest, floor(x/2^k) = x_div/2^k +
+// floor(x_rest/2^k) and x mod 2^k = x_rest mod 2^k (every variable is an
+// integer).  It applies when something can be split off.
+func (w *World) divmodSplit(in ssa.Instruction, x *Int, k uint) (q, r *Int, ok bool) {
+	f := x.F()
+	mod := pow2(k)
+	divisible := func(c *big.Rat) bool {
+		return c.IsInt() && new(big.Int).And(c.Num(), new(big.Int).Sub(mod, bigOne)).Sign() == 0
+	}
+	div, rest := &Form{c: ratZero}, &Form{c: ratZero}
+	for _, t := range f.ts {
+		if divisible(t.c) {
+			div.ts = append(div.ts, t)
+		} else {
+			rest.ts = append(rest.ts, t)
+		}
+	}
+	if len(div.ts) == 0 {
+		return nil, nil, false
+	}
+	// the constant goes with the rest (reduced into [0, 2^k) when it is an integer)
+	rest.c = f.c
+	if f.c.IsInt() {
+		cq := floorDiv2(f.c.Num(), k)
+		div.c = new(big.Rat).SetInt(new(big.Int).Lsh(cq, k))
+		rest.c = new(big.Rat).SetInt(new(big.Int).Sub(f.c.Num(), new(big.Int).Lsh(cq, k)))
+	}
+	w.Stats["division identity: exactly divisible terms split off"]++
+	qd := div.Scale(new(big.Rat).SetFrac(bigOne, mod))
+	if len(rest.ts) == 0 && rest.c.IsInt() {
+		rr := rest.c.Num()
+		ar := Itv{floorDiv2(x.R.Lo, k), floorDiv2(x.R.Hi, k)}
+		return w.mkInt(qd, &ar), w.concInt(rr), true
+	}
+	xr := w.intOfForm(rest)
+	xr.wr = nil
+	q2, r2 := w.divmod(in, xr, k)
+	ar := Itv{floorDiv2(x.R.Lo, k), floorDiv2(x.R.Hi, k)}
+	return w.mkInt(qd.Add(q2.F()), &ar), r2, true
+}
+
+// product expands x*y bilinearly into monomial symbols when both operands
+// are affine forms over input symbols.
+func (w *World) product(x, y *Int) (*Int, bool) {
+	fx, fy := x.F(), y.F()
+	for _, f := range []*Form{fx, fy} {
+		for _, t := range f.ts {
+			if w.vars[t.v].Kind != VSym {
+				return nil, false
+			}
+		}
+	}
+	out := &Form{c: ratMul(fx.c, fy.c)}
+	acc := map[int]*big.Rat{}
+	add := func(v int, c *big.Rat) {
+		if c.Sign() == 0 {
+			return
+		}
+		if old, ok := acc[v]; ok {
+			acc[v] = ratAdd(old, c)
+		} else {
+			acc[v] = c
+		}
+	}
+	for _, t := range fx.ts {
+		add(t.v, ratMul(t.c, fy.c))
+	}
+	for _, t := range fy.ts {
+		add(t.v, ratMul(t.c, fx.c))
+	}
+	for _, a := range fx.ts {
+		for _, b := range fy.ts {
+			add(w.monomial(a.v, b.v), ratMul(a.c, b.c))
+		}
+	}
+	for v, c := range acc {
+		if c.Sign() != 0 {
+			out.ts = append(out.ts, term{v, c})
+		}
+	}
+	sort.Slice(out.ts, func(i, j int) bool { return out.ts[i].v < out.ts[j].v })
+	ar := x.R.Mul(y.R)
+	w.Stats["products expanded into monomials"]++
+	return w.mkInt(out, &ar), true
+}
+
+// monomial returns the symbol of the (unordered) product of two input symbols.
+func (w *World) monomial(a, b int) int {
+	if a > b {
+		a, b = b, a
+	}
+	if v, ok := w.monoMemo[[2]int{a, b}]; ok {
+		return v
+	}
+	va, vb := w.Var(a), w.Var(b)
+	r := Itv{va.Lo, va.Hi}.Mul(Itv{vb.Lo, vb.Hi})
+	v := w.newVar(VarInfo{Kind: VMono, Name: va.Name + "*" + vb.Name, Lo: r.Lo, Hi: r.Hi, Parent: a, Index: b})
+	if w.monoMemo == nil {
+		w.monoMemo = map[[2]int]int{}
+	}
+	w.monoMemo[[2]int{a, b}] = v
+	return v
 }
 
 // ---------------------------------------------------------------------------
